@@ -33,6 +33,9 @@ pub struct EdgeCfg {
     /// keep outcomes apart whenever the emitted bytes differ (value grid), not only by opcode byte
     #[serde(default)]
     pub full_bytes: bool,
+    /// when non-empty, only these opcodes are forced
+    #[serde(default)]
+    pub only_ops: Vec<u8>,
 }
 
 type Proj = (Vec<u8>, Vec<(usize, u8)>);
@@ -75,15 +78,19 @@ fn fresh(cfg: &Cfg) -> Generator {
 pub const SRC_ZERO: u64 = u64::MAX;
 pub const SRC_FF: u64 = u64::MAX - 1;
 pub const SRC_EMPTY: u64 = u64::MAX - 2;
+/// SRC_EMPTY - 1 - b = fuzzer input of 256 bytes that are all b (b in 0..=255)
+pub const SRC_CONST_LOW: u64 = u64::MAX - 2 - 256;
 
 fn force(g: &mut Generator, op: OpcodeKind, seed: u64) -> Result<Vec<u8>, String> {
     tick(|| format!("forced emission of opcode 0x{:02x} with entropy source {} on stack {:?}", op.as_u8(), seed, g.verif_stack_kinds()));
     let before = g.output.len();
-    let r = if seed >= SRC_EMPTY {
+    let r = if seed >= SRC_CONST_LOW {
         let data: Vec<u8> = match seed {
             SRC_ZERO => vec![0u8; 256],
             SRC_FF => vec![0xffu8; 256],
-            _ => Vec::new(),
+            SRC_EMPTY => Vec::new(),
+            // 256 bytes all equal to b: every byte-valued draw of the emitter / mutator takes the value b
+            c => vec![(SRC_EMPTY - 1 - c) as u8; 256],
         };
         let mut u = arbitrary::Unstructured::new(&data);
         // the source borrows `u` for its own lifetime parameter: scope it through a raw pointer
@@ -152,6 +159,7 @@ pub fn enumerate(ec: &EdgeCfg, out: &mut dyn Write) -> (usize, usize) {
             .collect();
         let mut int_outcomes: HashMap<(Vec<u8>, Proj), u64> = HashMap::new();
         for op in enabled {
+            if !ec.only_ops.is_empty() && !ec.only_ops.contains(&op.as_u8()) { continue; }
             let is_int = matches!(
                 op,
                 OpcodeKind::Int | OpcodeKind::Long | OpcodeKind::Long1 | OpcodeKind::Long4
@@ -171,7 +179,7 @@ pub fn enumerate(ec: &EdgeCfg, out: &mut dyn Write) -> (usize, usize) {
                 // outcomes that differ only in argument payload are the same edge
                 let head: Vec<u8> = bytes.iter().take(1).cloned().collect();
                 let key = (
-                    if ec.full_bytes || seed >= SRC_EMPTY || matches!(op, OpcodeKind::Get | OpcodeKind::BinGet | OpcodeKind::LongBinGet) { bytes.clone() } else { head },
+                    if ec.full_bytes || seed >= SRC_CONST_LOW || matches!(op, OpcodeKind::Get | OpcodeKind::BinGet | OpcodeKind::LongBinGet) { bytes.clone() } else { head },
                     post.clone(),
                 );
                 if outcomes.contains_key(&key) {
